@@ -377,13 +377,13 @@ type EmitEntry struct {
 	Label  string
 	Skip   []string // values for which nothing is appended
 	Group  int      // index of the enclosing condition group (-1: unconditional)
-	Call   *ast.CallExpr
+	Call   ast.Node
 }
 
 type EmitGroup struct {
 	CondLabels []string // labels tested `x != ND`
 	CondConst  []string
-	If         *ast.IfStmt
+	If         ast.Node
 }
 
 type EmitModel struct {
@@ -396,6 +396,10 @@ type EmitModel struct {
 	BufObj    types.Object
 	MakeCall  *ast.CallExpr
 	LenCall   *ast.CallExpr
+	// Semantic: obtained by symbolic interpretation of Vector (semit.go); the
+	// syntactic recogniser below is the fallback
+	Semantic bool
+	Fallback string // why the symbolic interpretation did not apply
 }
 
 type problem struct {
@@ -559,6 +563,24 @@ func (p *Pkg) isGetAccessor(fn *types.Func) bool {
 }
 
 func (p *Pkg) EmitModel() *EmitModel {
+	if p.emitModel != nil {
+		return p.emitModel
+	}
+	sem, err := p.semanticEmitModel()
+	if err == nil {
+		p.emitModel = sem
+		return sem
+	}
+	em := p.syntacticEmitModel()
+	em.Fallback = err.Error()
+	if se, ok := err.(*semitErr); ok && se.at != nil {
+		em.Fallback += " at " + p.pos(se.at)
+	}
+	p.emitModel = em
+	return em
+}
+
+func (p *Pkg) syntacticEmitModel() *EmitModel {
 	fd := p.method("Vector")
 	em := &EmitModel{Fn: fd}
 	if fd == nil {
@@ -914,6 +936,11 @@ func (w *World) rulesEmit(p *Pkg, ov *OVocab, ord [][]string, out *[]Obligation)
 	}
 	for _, pr := range em.Problems {
 		add(false, "R02.emit", "Vector", pr.n, pr.msg+": undecided")
+	}
+	if em.Semantic {
+		add(true, "R02.emit", "Vector.model", em.Fn, fmt.Sprintf("Vector interpreted over symbolic Get strings (helpers inlined, loops over constant tables unrolled, branches merged): header %q, %d metric entries, %d conditional groups", em.Header, len(em.Entries), len(em.Groups)))
+	} else if em.Fn != nil {
+		add(true, "R02.emit", "Vector.model", em.Fn, "Vector recognised syntactically (the symbolic interpreter does not apply: "+em.Fallback+")")
 	}
 	// R02.header / R13.emit
 	if ov.Header != "" {
